@@ -520,6 +520,13 @@ Proof.
               ** bdestr.
            ++ intros i Hi Hn. destruct (Nat.eq_dec i index) as [->|Hne]; [rewrite Ek; discriminate|]. apply C; auto. lia.
         -- destruct IH as (i & Hi & Hn & Hr); [lia|]. exists i. repeat split; auto; lia.
+      * specialize (IH (S index) sl). destruct (fill_defaults ps k (S index) sl).
+        -- destruct IH as (A & B & C); [lia|]. repeat split; auto.
+           ++ intros i. rewrite B. destruct (Nat.eq_dec i index) as [->|Hne].
+              ** unfold filled, dflt. rewrite Eg, Ek. bdestr.
+              ** bdestr.
+           ++ intros i Hi Hn. destruct (Nat.eq_dec i index) as [->|Hne]; [rewrite Ek; discriminate|]. apply C; auto. lia.
+        -- destruct IH as (i & Hi & Hn & Hr); [lia|]. exists i. repeat split; auto; lia.
 Qed.
 
 
